@@ -10,7 +10,8 @@ decoder agree on the zigzag flag.  The only non-literal case is a nil `[]byte` w
 
   * `unLE32_le32`, `unLE64_le64`, `decodeVarlen_chunk`     wire primitives
   * `i64_u64`                                              zig-zag / two's complement views are inverse on int64
-  * `decode_encode_bool/_int/_int32/_uint/_uint32/_fixed32/_fixed64/_float32/_float64/_string/_bytes/_bytes_nil`
+  * `decode_encode_bool/_int/_int32/_uint/_uint32/_fixed32/_fixed64/_sfixed32/_sfixed64/_float32/_float64/_string/
+    _bytes/_bytes_nil`
   * `payload_*`                                            what the encoder wrote is a complete payload of its wire type
 -/
 set_option linter.unusedSimpArgs false
@@ -143,6 +144,32 @@ theorem decode_encode_fixed64 (i : Int) (fl' fl : Flags) (cur : Val) (fuel : Nat
   have := unLE64_le64 (BitVec.ofInt 64 i) []
   rw [List.append_nil] at this
   simp only [encode, hw, if_true, decode, this, toNat_ofInt64 i h0 h1, Lemmas.Proto.le64_length]
+
+/-- sfixed32 (`int32` tagged `fixed32`): four bytes of two's complement, read back signed:
+`(BitVec.ofInt 32 i).toInt = i` on the int32 range -/
+theorem decode_encode_sfixed32 (i : Int) (fl' fl : Flags) (cur : Val) (fuel : Nat)
+    (h1 : -(2:Int)^31 ≤ i) (h2 : i < (2:Int)^31) (hw : (i != 0 || fl'.wantzero) = true) :
+    decode (fuel + 1) .sfixed32 (encode .sfixed32 (.int i) fl') cur fl
+      = .ok (.int i, (encode .sfixed32 (.int i) fl').length) := by
+  have := unLE32_le32 (BitVec.ofInt 32 i) []
+  rw [List.append_nil] at this
+  have hi : (BitVec.ofInt 32 i).toInt = i := BitVec.toInt_ofInt_eq_self (by decide) h1 h2
+  simp only [encode, hw, if_true, decode, this, hi, Lemmas.Proto.le32_length]
+
+/-- sfixed64 (`int64` tagged `fixed64`) -/
+theorem decode_encode_sfixed64 (i : Int) (fl' fl : Flags) (cur : Val) (fuel : Nat)
+    (h1 : -(2:Int)^63 ≤ i) (h2 : i < (2:Int)^63) (hw : (i != 0 || fl'.wantzero) = true) :
+    decode (fuel + 1) .sfixed64 (encode .sfixed64 (.int i) fl') cur fl
+      = .ok (.int i, (encode .sfixed64 (.int i) fl').length) := by
+  have := unLE64_le64 (BitVec.ofInt 64 i) []
+  rw [List.append_nil] at this
+  have hi : (BitVec.ofInt 64 i).toInt = i := BitVec.toInt_ofInt_eq_self (by decide) h1 h2
+  simp only [encode, hw, if_true, decode, this, hi, Lemmas.Proto.le64_length]
+
+/-- concrete instance: −5 as sfixed32 -/
+example : decode 1 .sfixed32 (encode .sfixed32 (.int (-5)) {}) (.int 0) {}
+    = .ok (.int (-5), (encode .sfixed32 (.int (-5)) {}).length) :=
+  decode_encode_sfixed32 (-5) {} {} _ 0 (by decide) (by decide) rfl
 
 theorem decode_encode_float32 (b : Nat) (fl' fl : Flags) (cur : Val) (fuel : Nat)
     (hb : b < 2 ^ 32) (hw : (b != 0 || fl'.wantzero) = true) :
